@@ -138,6 +138,9 @@ def gen_model(rng, maxv, pairs=None, version=None, canonical=False, wide=False):
                 if li < nl and rng.random() < 0.8:
                     me = lods[li][0]
                     vals = [(rng.randrange(len(me["indices"])), rng.randrange(me["vcount"])) for _ in range(rng.randint(1, 5))]
+                    if wide and rng.random() < 0.3:
+                        # a shape mesh without values, or whose values all lie outside the mesh's index range: the shape does not touch this mesh
+                        vals = [] if rng.random() < 0.5 else [(min(65535, len(me["indices"]) + rng.randrange(50)), rng.randrange(me["vcount"])) for _ in range(rng.randint(1, 3))]
                     per_lod.append([(0, vals)])
                 else:
                     per_lod.append([])
